@@ -61,6 +61,7 @@ class _T:
         self.pending = None      # (access label, enabled predicate)
         self.finished = False
         self.real = None
+        self.len_hint = None     # container just snapshotted by list(c): its length hint is not an access
 
 
 class Scheduler:
@@ -77,6 +78,7 @@ class Scheduler:
         self.res = Result()
         self._clients = []
         self.active = False
+        self.before_abort = None     # callable run before the threads of an abandoned run are released
         sched = self
 
         class Thread:
@@ -215,6 +217,7 @@ class Scheduler:
         t = self._me()
         if t is None or self.aborting:
             return do()
+        t.len_hint = None
         self._park(t, (label, enabled))
         try:
             v = do()
@@ -294,13 +297,23 @@ class Scheduler:
                 return sched.access(name + '.clear', lambda: collections.deque.clear(self))
 
             def __len__(self):
+                t = sched._me()
+                if t is not None and t.len_hint == id(self):
+                    # list(deque) is ONE atomic operation of the interpreter: the length hint it
+                    # asks for right after the snapshot is not a second access
+                    t.len_hint = None
+                    return collections.deque.__len__(self)
                 return sched.access(name + '.len', lambda: collections.deque.__len__(self))
 
             def __bool__(self):
                 return len(self) > 0
 
             def __iter__(self):
-                return iter(sched.access(name + '.list', lambda: list(collections.deque.__iter__(self))))
+                snap = sched.access(name + '.list', lambda: list(collections.deque.__iter__(self)))
+                t = sched._me()
+                if t is not None:
+                    t.len_hint = id(self)
+                return iter(snap)
         return SharedDeque(init)
 
     def dict(self, name, init=None):
@@ -360,6 +373,8 @@ class Scheduler:
         return True
 
     def _abort(self):
+        if self.before_abort is not None:
+            self.before_abort()
         self.aborting = True
         for t in self.threads:
             if not t.finished:
